@@ -777,6 +777,77 @@ var scopeE2ESpecModel = &Model{
 	Class:  e2eClass,
 }
 
+// inCore: the fragment the Coq label machine (and resolution_correct) covers: Block, anonymous
+// Func whose parameter list has no default values, Decl var/let/function/param, Ref
+func inCore(l []*item, ctx int) bool {
+	for _, it := range l {
+		switch it.kind {
+		case kRef:
+			if ctx != 0 {
+				return false
+			}
+		case kDecl:
+			if ctx == 1 && it.d != dParam || ctx == 0 && (it.d == dParam || it.d == dCatch) {
+				return false
+			}
+		case kBlock:
+			if ctx != 0 || !inCore(it.b, 0) {
+				return false
+			}
+		case kFunc:
+			if ctx != 0 || it.nm >= 0 || !inCore(it.a, 1) || !inCore(it.b, 0) {
+				return false
+			}
+		default:
+			return false
+		}
+	}
+	return true
+}
+
+func e2eAMImpl(c Case) []int64 {
+	l := progOfCase(c)
+	out, p, _ := e2eObserve(l, false)
+	if len(out) == 0 || out[0] != 1 {
+		return out
+	}
+	n := int(out[1])
+	res := append([]int64{}, out[:2+n]...)
+	_, reps := canonVars(p.roots)
+	for _, r := range reps {
+		g := int64(0)
+		if r.Decl == js.NoDecl {
+			g = 1
+		}
+		res = append(res, g)
+	}
+	return res
+}
+
+var scopeE2EAMModel = &Model{
+	Name: "scope_e2e_am",
+	Gen: func(r *Rng, tier string, emit func(Case)) {
+		k, n := 4, 6000
+		if tier == "thorough" {
+			k, n = 5, 200000
+		}
+		enumProgs(k, func(l []*item) {
+			if renderable(l, 0) && inCore(l, 0) {
+				emit(e2eCase("scope_e2e_am", l, "exhaustive: "))
+			}
+		})
+		for i := 0; i < n; i++ {
+			l := genProgram(r, 3+i%40, true)
+			if inCore(l, 0) {
+				emit(e2eCase("scope_e2e_am", l, "random: "))
+			}
+		}
+	},
+	Impl:   e2eAMImpl,
+	Shrink: shrinkProg,
+	Class:  e2eClass,
+}
+
 // ---- oracle: the property text on the implementation ---------------------------------------------
 
 func collectAll(p *parsed) []*js.Var {
@@ -946,7 +1017,7 @@ func namesOf(l []int) []string {
 
 func init() {
 	props["C04"] = &PropSpec{
-		Models:  []*Model{scopeAPIModel, scopeE2EAlgoModel, scopeE2ESpecModel},
+		Models:  []*Model{scopeAPIModel, scopeE2EAlgoModel, scopeE2ESpecModel, scopeE2EAMModel},
 		Oracles: []*Oracle{{Name: "c04-rename-reprint", Run: c04Oracle}},
 	}
 }
